@@ -3,6 +3,7 @@
 // Floats cross the boundary as 16-hex-digit bit patterns.
 mod util;
 mod c01;
+mod c02;
 mod c03;
 mod c04;
 mod c05;
@@ -27,6 +28,7 @@ fn dispatch(case: &Value) -> Value {
     let p = k.split('.').next().unwrap_or("");
     match p {
         "c01" => c01::run(k, case),
+        "c02" => c02::run(k, case),
         "c03" => c03::run(k, case),
         "c04" => c04::run(k, case),
         "c05" => c05::run(k, case),
